@@ -86,7 +86,6 @@ def decode(val: t.Any, *, encoding: str = constants.DEFAULT_ENCODING) -> t.Any:
     return val
 
 
-@compat.lru_cache(maxsize=100_000)
 def isoformat(dt: datetime.date | datetime.time | datetime.timedelta) -> str:
     """Format any date/time object into an ISO-8601 string.
 
@@ -109,8 +108,15 @@ def isoformat(dt: datetime.date | datetime.time | datetime.timedelta) -> str:
         >>> serdes.isoformat(datetime.timedelta(hours=1))
         'PT1H'
     """
+    # Equal instants with different UTC offsets compare (and hash) equal,
+    #   so only durations are safe to memoize.
     if isinstance(dt, (datetime.date, datetime.time)):
         return dt.isoformat()
+    return _isoformat_duration(dt)
+
+
+@compat.lru_cache(maxsize=100_000)
+def _isoformat_duration(dt: datetime.timedelta) -> str:
     # ISO 8601 durations carry one sign for the whole period and never fold days into weeks.
     sign = ""
     if dt.days < 0:
